@@ -223,7 +223,16 @@ func reduceExprs(m *Module, keep func() bool) bool {
 			return
 		case *Index:
 			visit(&x.X, lvalue)
-			visit(&x.I, false)
+			// an index may only be simplified to 0 (any other literal could leave the container's bounds)
+			if _, isLit := x.I.(*Lit); !isLit {
+				old := x.I
+				x.I = &Lit{Ty: U32, I: 0}
+				if keep() {
+					changed = true
+				} else {
+					x.I = old
+				}
+			}
 			return
 		case *Field:
 			visit(&x.X, lvalue)
